@@ -392,6 +392,9 @@ def _lag_exact_expected(op, what):
     return [ok and lit_exact(k) and (n <= 1 or xs_frac or flav(k) == "F") for k in pts]
 
 
+_LAGP_RESULTS = []          # the Polys that lagrange.poly returned so far in this history (kept alive: identity)
+
+
 def run_lag(op):
     from audiolazy import lagrange
     kind = op[0]
@@ -413,7 +416,13 @@ def run_lag(op):
             vals = [p(v) for v in at]
             out["poly"] = {"terms": _terms(p), "at": [encx(v) for v in vals],
                            "exact": all(is_exact(v) for _, v in p.terms(sort=False)),
-                           "at_exact": [is_exact(v) for v in vals]}
+                           "at_exact": [is_exact(v) for v in vals],
+                           "same_as_earlier": any(q is p for q in _LAGP_RESULTS)}
+            _LAGP_RESULTS.append(p)
+            try:
+                p[97] = F(1)          # the caller's own (never hashed) result, changed by the caller: nobody else may see it
+            except Exception:
+                pass
         except Exception as e:
             out["poly"] = {"err": err_kind(e)}
         out["poly_exact_due"] = _lag_exact_expected(op, "poly")
@@ -438,6 +447,7 @@ def run_resample(op):
 
 
 def impl_here(c):
+    del _LAGP_RESULTS[:]
     pool = [build_leaf(t) for t in c["objs"]]
     vm = {i: i for i in range(len(pool))}
     srcs = [build_src(s) for s in c.get("srcs", [])]
@@ -560,7 +570,7 @@ def impl_here(c):
 # isolation: a history has to fail by itself (not through state left in the library by earlier cases of the run)
 # ----------------------------------------------------------------------------------------------------------------
 ISO_ALWAYS = 250
-_ISO = {"zygote": None, "failed": False, "n": 0}
+_ISO = {"zygote": None, "failed": False, "n": 0, "always": False}
 
 
 def zygote_start():
@@ -639,7 +649,9 @@ def isolated(c):
 
 def impl(c):
     _ISO["n"] += 1
-    if _ISO["n"] <= ISO_ALWAYS:
+    # once a history has failed, every further one (the search around it, the shrinking) runs in a fresh process:
+    # state left in the library by other cases can hide a failure as well as cause one
+    if _ISO["n"] <= ISO_ALWAYS or _ISO["always"]:
         r = isolated(c)
         if r is not None:
             return r
@@ -687,8 +699,7 @@ def describe_op(op, n0, t):
     def v(i):
         return "p%d" % i
     def L(j):
-        x = lit(j)
-        return "Fraction(%s)" % x if isinstance(x, F) else repr(x)
+        return repr(lit(j))
     def K(j):
         return repr(_key(j))
     k = op[0]
@@ -736,8 +747,9 @@ def describe_op(op, n0, t):
         return "%s == %s" % (v(op[1]), L(op[2]))
     if k in ("lagf", "lagp"):
         cont = op[3] if len(op) > 3 else "list_tuples"
-        return "lagrange.%s(%s %s) at %s" % ("func" if k == "lagf" else "poly", cont,
-                                             [(lit(a), lit(b)) for a, b in op[1]], [lit(x) for x in op[2]])
+        pts = ("enumerate(deque(%r))" % [lit(b) for _, b in op[1]] if cont == "enum_deque" else
+               "%s %r" % (cont, [(lit(a), lit(b)) for a, b in op[1]]))
+        return "lagrange.%s(%s) at its abscissae and at %s" % ("func" if k == "lagf" else "poly", pts, [lit(x) for x in op[2]])
     if k == "resample":
         return "list(resample(%s, old=%s, new=%s, order=%d, zero=%s))" % ([lit(x) for x in op[1]], L(op[2]), L(op[3]), op[4], L(op[5]))
     return json.dumps(op)
@@ -817,6 +829,9 @@ def problems(c, io, drv):
                         if "err" in ap and spec is not None:
                             add("spec", "raises:" + ap["err"], "lagrange.poly raised %s on distinct abscissae" % ap["err"])
                 else:
+                    if ap.get("same_as_earlier"):
+                        add("spec", "not-fresh", "lagrange.poly returned the very object it returned before (which the caller "
+                            "has changed since): %s" % json.dumps(ap["terms"])[:120])
                     if a["poly_exact_due"] and not ap["exact"]:
                         add("spec", "inexact", "lagrange.poly has inexact coefficients although every input is an exact number: %s (alone: %s)" % (
                             json.dumps(ap["terms"])[:120], json.dumps(mp["terms"])[:120]))
@@ -892,8 +907,9 @@ def problems(c, io, drv):
             ex = exact_slot.get(idx, True)
             if idx in ad and idx in md:
                 if not ex and not a["justified"] and (k in PRODUCES or k in MUTATES):
-                    add("spec", "inexact", "p%s now has inexact coefficients %s although operands and literals are exact (alone: %s)" % (
-                        "[new]" if idx == newidx else idx, json.dumps(ad[idx][1])[:120], json.dumps(md[idx])[:120]))
+                    add("spec", "inexact", "%s now has inexact (float / complex) coefficients %s although operands and literals are "
+                        "exact numbers (the same operation alone gives %s)" % (
+                            "the result" if idx == newidx else "variable #%d" % idx, json.dumps(ad[idx][1])[:120], json.dumps(md[idx])[:120]))
                     continue
                 if not _terms_ok(ad[idx][1], md[idx], ex):
                     what = "the result" if idx == newidx else "variable #%d" % idx
@@ -947,6 +963,8 @@ def _srcs_ok(a, m):
 
 def compare(c, io, drv):
     probs = problems(c, io, drv)
+    if probs:
+        _ISO["always"] = True
     if probs and io.get("isolated") is False:
         io2 = isolated(c)
         if io2 is not None:
@@ -955,8 +973,9 @@ def compare(c, io, drv):
             io.update(io2)
             if not probs2:
                 io["only_after_earlier_cases"] = True
-                return [(kd, "only after the earlier cases of this run (agrees when run alone in a fresh process: the library keeps "
-                         "state somewhere): " + d) for kd, _, _, d in probs[:3]]
+                # not a self-contained witness: reported as a broken correspondence, never as the failing input
+                return [("model", "only after the earlier cases of this run (agrees when run alone in a fresh process: the library "
+                         "keeps state somewhere): " + d) for _, _, _, d in probs[:3]]
             probs = probs2
     if not probs:
         return []
@@ -1019,11 +1038,18 @@ def tally(eng, c, io):
         if k in LAG:
             eng.count("hist_lag_container", op[3] if k != "resample" and len(op) > 3 else ("resample" if k == "resample" else "list_tuples"))
             eng.count("hist_lag_points", len(op[1]) if k != "resample" else "order %d" % op[4])
-            key = json.dumps([[nom(a) for a, _ in op[1]]] if k != "resample" else ["resample", op[4]])
-            if key in seen_sig and seen_sig[key] != fls:
-                eng.count("hist_shared", "interpolator on numerically equal abscissae of another type (%s then %s)" % (
-                    "/".join(seen_sig[key]), "/".join(fls)))
-            seen_sig.setdefault(key, fls)
+            enum = k == "resample" or (len(op) > 3 and op[3] == "enum_deque")
+            n = (op[4] + 1) if k == "resample" else len(op[1])
+            key = json.dumps(list(range(n)) if enum else [str(dec(nom(a))) for a, _ in op[1]])
+            xfl = "i" if enum else "/".join(sorted({flav(a) for a, _ in op[1]}))
+            if key in seen_sig and seen_sig[key][0] != xfl:
+                eng.count("hist_shared", "interpolator on numerically equal abscissae of another type (%s then %s)" % (seen_sig[key][0], xfl))
+            if k != "resample":
+                full = json.dumps([[str(dec(nom(a))), str(dec(nom(b)))] for a, b in op[1]])
+                if seen_sig.get("full:" + full, (fls,))[0] != fls:
+                    eng.count("hist_shared", "interpolator on numerically equal POINTS of another type")
+                seen_sig.setdefault("full:" + full, (fls,))
+            seen_sig.setdefault(key, (xfl,))
             if st.get("exact") and isinstance(st.get("values"), list):
                 eng.count("hist_lag_regime", "exact" if all(st["exact"]) else "float")
             continue
@@ -1587,7 +1613,7 @@ class Gen(object):
         return True
 
 
-def rlag(rng, kind, pf, xs=None, n=None, flavour=None, cont=None):
+def rlag(rng, kind, pf, xs=None, n=None, flavour=None, cont=None, ys=None, ks=None):
     pool = [F(i) for i in range(-3, 6)] + [F(1, 2), F(-3, 2), F(5, 2), F(7, 4)]
     cont = cont or rng.choice(CONTAINERS)
     if n is None:
@@ -1600,11 +1626,15 @@ def rlag(rng, kind, pf, xs=None, n=None, flavour=None, cont=None):
     if flavour is None:
         flavour = rng.choice("iifcb") if rng.random() < pf else "F"
     fy = flavour if rng.random() < 0.7 else "F"
-    ys = [rng.choice(INTS + DYAD + OTHER) if fy not in "ib" else rng.choice(INTS) for _ in xs]
+    if ys is None:
+        ys = [rng.choice(INTS + DYAD + OTHER) if fy not in "ib" else rng.choice(INTS) for _ in xs]
+    else:
+        fy = flavour                  # the same points, every number in the flavour (where it has such a form)
     pairs = [[mklit(a, flavour), mklit(b, fy)] for a, b in zip(xs, ys)]
     fk = flavour if rng.random() < 0.5 else rng.choice("FFi")
-    ks = [mklit(rng.choice(INTS + DYAD + [F(7, 2), F(-5, 3), F(0)]), fk) for _ in range(rng.randint(0, 2))]
-    return [kind, pairs, ks, cont]
+    if ks is None:
+        ks = [rng.choice(INTS + DYAD + [F(7, 2), F(-5, 3), F(0)]) for _ in range(rng.randint(0, 2))]
+    return [kind, pairs, [mklit(v, fk) for v in ks], cont]
 
 
 def rresample(rng, pf, order=None, flavour=None):
@@ -1617,7 +1647,7 @@ def rresample(rng, pf, order=None, flavour=None):
     return ["resample", sig, mklit(old, fo), mklit(new, fo), order, mklit(0, flavour if flavour != "c" else "F")]
 
 
-WALK = [("new", 5), ("from", 3), ("src_set", 3), ("un", 5), ("bin", 14), ("scal", 6), ("divs", 3), ("div", 3), ("pow", 11),
+WALK = [("new", 5), ("from", 3), ("src_set", 3), ("un", 5), ("bin", 14), ("scal", 6), ("divs", 3), ("div", 6), ("pow", 11),
         ("comp", 6), ("call", 8), ("diff", 4), ("integ", 3), ("setitem", 18), ("setzero", 2), ("hash", 3), ("eq", 4),
         ("ne", 1), ("eqs", 2), ("lagf", 2), ("lagp", 1), ("repeat", 18)]
 LONGWALK = [("un", 3), ("bin", 6), ("scal", 4), ("divs", 2), ("pow", 8), ("call", 10), ("diff", 3), ("setitem", 26),
@@ -1746,6 +1776,64 @@ def gen_twin(rng):
     return {"entry": "hist", "shape": "twin", "objs": g.objs, "srcs": g.srcs, "ops": g.ops}
 
 
+def gen_objtwin(rng):
+    """numerically equal Polys whose coefficients have different numeric types (p == q and hash(p) == hash(q) hold
+    between them), the same operation on each, in both orders"""
+    g = Gen(rng, 0.0, nobj=0)
+    nterm = rng.randint(1, 3)
+    ks = rng.sample(range(-2, 5), nterm)
+    vals = [rng.choice(INTS + DYAD[:3]) if rng.random() < 0.8 else rng.choice([F(0), F(1)]) for _ in ks]
+    flavours = rng.sample(["F", "i", "f", "c", "b"], rng.randint(2, 3))
+    if "F" not in flavours:
+        flavours[rng.randrange(len(flavours))] = "F"
+    rng.shuffle(flavours)
+    as_list = rng.random() < 0.25 and all(k >= 0 for k in ks)
+    twins = []
+    for t in flavours:
+        if as_list:
+            body = [mklit(v, t) for v in vals]
+            twins.append(g.emit(["new", "list", body], _leaf_info(["list", body])))
+        else:
+            body = [[k, mklit(v, t)] for k, v in zip(ks, vals)]
+            twins.append(g.emit(["new", "dict", body], _leaf_info(["dict", body])))
+    other = None
+    if rng.random() < 0.6:
+        g.step("new", pf=0.0)
+        other = g.n0 + len(g.ops) - 1
+    for _ in range(rng.randint(1, 3)):
+        k = rng.choice(["diff", "diff", "integ", "pow", "pow", "un", "call", "call", "hash", "bin", "bin", "comp", "scal", "divs", "eqs", "eq"])
+        order = list(twins)
+        rng.shuffle(order)
+        if k == "eq":
+            g.step("eq", i=order[0], j=order[-1])
+            continue
+        first = None
+        for v in order:
+            if first is None:
+                nb = len(g.ops)
+                kw = {"i": v}
+                if k in ("bin", "comp") and other is not None:
+                    kw = {"i": v, "j": other} if rng.random() < 0.5 else {"i": other, "j": v}
+                if k == "hash" and g.info[v]["risky"]:
+                    break
+                if not g.step(k, **kw) or len(g.ops) == nb:
+                    break
+                first = (g.ops[nb], v)
+            else:
+                op = _renumber(first[0], lambda r: v if r == first[1] else r)
+                if op[0] == "hash":
+                    g.step("hash", i=v)
+                    continue
+                inf = g.info.get(g.n0 + len(g.ops) - 1)
+                nv = g.emit(op, dict(inf) if (op[0] in PRODUCES and inf is not None) else None)
+                if op[0] == "pow" and nv is not None:
+                    n = int(dec(nom(op[2])))
+                    if n != 0 and n <= 1:
+                        g.info[nv]["risky"] = True
+                        g.info[v]["risky"] = True
+    return {"entry": "hist", "shape": "objtwin", "objs": g.objs, "srcs": g.srcs, "ops": g.ops}
+
+
 def gen_lag(rng, maxn=5):
     """interpolators on numerically equal abscissae of different numeric types / container kinds, in both orders, and
     `resample` (abscissae 0..order) in between"""
@@ -1759,10 +1847,17 @@ def gen_lag(rng, maxn=5):
         flavours[rng.randrange(len(flavours))] = "F"
     if "b" in flavours and not all(x in (0, 1) for x in xs):
         flavours = [f if f != "b" else "i" for f in flavours]
+    # the very same points (abscissae AND ordinates AND evaluation points) in every flavour, or only the abscissae
+    same_pts = rng.random() < 0.5
+    ys = [rng.choice(INTS + DYAD) for _ in xs] if same_pts else None
+    ks = [rng.choice(INTS + DYAD + [F(0)]) for _ in range(rng.randint(0, 2))] if same_pts else None
+    same_kind = rng.choice(["lagf", "lagp", "lagp", None]) if same_pts else None
     for fl in flavours:
-        kind = rng.choice(["lagf", "lagf", "lagp"])
+        kind = same_kind or rng.choice(["lagf", "lagf", "lagp"])
         cont = rng.choice([c for c in CONTAINERS if c != "enum_deque" or xs == [F(i) for i in range(n)]])
-        ops.append(rlag(rng, kind, 0.0, xs=list(xs), n=n, flavour=fl, cont=cont))
+        ops.append(rlag(rng, kind, 0.0, xs=list(xs), n=n, flavour=fl, cont=cont, ys=ys, ks=ks))
+        if same_pts and rng.random() < 0.3:
+            ops.append(list(ops[-1]))                     # and once more, unchanged
         if rng.random() < 0.25:
             ops.append(rresample(rng, 0.0, order=rng.choice([n - 1, 3]) or 1, flavour=rng.choice(["F", "F", "f", "i"])))
     if rng.random() < 0.3:
@@ -1819,6 +1914,7 @@ def gen_hist(rng, tier, scale=1):
                 out.append(c)
     rep(260 * n, lambda: gen_memo(rng, rng.choice([0.0, 0.0, 0.15])))
     rep(140 * n, lambda: gen_twin(rng))
+    rep(150 * n, lambda: gen_objtwin(rng))
     rep(220 * n, lambda: gen_lag(rng, 5 if quick else 7))
     rep(70 * n, lambda: gen_hashed(rng))
     rep(70 * n, lambda: gen_src(rng, rng.choice([0.0, 0.2])))
